@@ -50,10 +50,11 @@ package oauth2
 //@   ensures err != nil ==> acc_exists == old(acc_exists) && faults == old(faults) + 1
 
 //@ interface RefreshTokenStorage.CreateRefreshTokenSession
-//@   modifies ref_exists, ref_active, ref_rid, ref_client, ref_acc, ref_req, stored, faults, tx_escaped
+//@   modifies ref_exists, ref_active, ref_rid, ref_client, ref_acc, ref_req, ref_ever, stored, faults, tx_escaped
 //@   ensures tx_escaped == old(tx_escaped) + escapes(ctx, err)
 //@   ensures err == nil ==> ref_exists == upd(old(ref_exists), signature, true) && ref_active == upd(old(ref_active), signature, true) && ref_rid == upd(old(ref_rid), signature, request.GetID()) && ref_client == upd(old(ref_client), signature, request.GetClient().GetID()) && ref_acc == upd(old(ref_acc), signature, accessSignature) && ref_req == upd(old(ref_req), signature, request) && stored == upd(old(stored), request, true) && faults == old(faults)
 //@   ensures err != nil ==> refresh_unchanged() && stored == old(stored) && faults == old(faults) + 1
+//@   ensures (err == nil ==> ref_ever == upd(old(ref_ever), signature, true)) && (err != nil ==> ref_ever == old(ref_ever))
 
 //@ interface RefreshTokenStorage.GetRefreshTokenSession
 //@   modifies faults
@@ -101,6 +102,8 @@ package oauth2
 //@   ensures err == nil ==> validated_n == upd(old(validated_n), token, old(validated_n[token]) + 1)
 //@   ensures err != nil ==> validated_n == old(validated_n)
 //@ interface AuthorizeCodeStrategy.GenerateAuthorizeCode
+// cryptographic assumption (A12): the signature of a newly generated authorization code is not the signature of a stored one
+//@   ensures err == nil ==> !code_exists[signature]
 //@ interface AccessTokenStrategy.ValidateAccessToken
 //@   modifies validated_n
 //@   ensures err == nil ==> validated_n == upd(old(validated_n), token, old(validated_n[token]) + 1)
@@ -113,6 +116,8 @@ package oauth2
 //@   ensures err != nil ==> validated_n == old(validated_n)
 //@ interface RefreshTokenStrategy.GenerateRefreshToken
 //@   ensures err == nil ==> signature == recv.RefreshTokenSignature(ctx, token)
+// cryptographic assumption (A12): the signature of a newly generated refresh token is not the signature of one that has ever been stored
+//@   ensures err == nil ==> !ref_ever[signature]
 
 // ---------------------------------------------------------------- C01 / C02: authorization-code redemption
 
@@ -138,6 +143,7 @@ package oauth2
 //@   ensures [C01.replay-revokes-access] used && ekind(err) == "invalid_grant" && faults == old(faults) ==> (forall s string :: old(acc_exists[s]) && acc_rid[s] == rid ==> !acc_exists[s])
 //@   ensures [C01.replay-revokes-refresh] used && ekind(err) == "invalid_grant" && faults == old(faults) ==> (forall s string :: ref_exists[s] && ref_rid[s] == rid ==> !ref_active[s])
 //@   ensures [C01.handle-issues-nothing] (forall s string :: acc_exists[s] ==> old(acc_exists[s])) && (forall s string :: ref_active[s] ==> old(ref_active[s]))
+//@   ensures [C01.replay-establishes-dead] used && ekind(err) == "invalid_grant" && faults == old(faults) ==> dead(sig)
 //@   ensures [C02.client-bound] err == nil ==> old(code_client[sig]) == request.GetClient().GetID()
 //@   ensures [C02.redirect-bound] err == nil && formget(old(code_req[sig]).GetRequestForm(), "redirect_uri") != "" ==> formget(old(code_req[sig]).GetRequestForm(), "redirect_uri") == formget(request.GetRequestForm(), "redirect_uri")
 //@   ensures [C02.success-needs-live-code] err == nil ==> old(code_exists[sig]) && old(code_active[sig])
@@ -159,12 +165,17 @@ package oauth2
 //@   let sig  = old(c.AuthorizeCodeStrategy.AuthorizeCodeSignature(ctx, code))
 //@   let txl  = implements(c.CoreStorage, storage.Transactional)
 //@   requires c != nil && requester != nil && responder != nil && !stored[requester]
-//@   modifies code_active, acc_exists, acc_rid, acc_client, acc_req, ref_exists, ref_active, ref_rid, ref_client, ref_acc, ref_req, stored, faults, tx_open, tx_begun, tx_committed, tx_rolledback, tx_commit_calls, tx_rollback_calls, snap_code_active, snap_acc_exists, snap_ref_exists, snap_ref_active, snap_dev_live, dev_live, validated_n, tx_escaped, tx_ctx
+//@   modifies code_active, acc_exists, acc_rid, acc_client, acc_req, ref_exists, ref_active, ref_rid, ref_client, ref_acc, ref_req, ref_ever, stored, faults, tx_open, tx_begun, tx_committed, tx_rolledback, tx_commit_calls, tx_rollback_calls, snap_code_active, snap_acc_exists, snap_ref_exists, snap_ref_active, snap_dev_live, dev_live, validated_n, tx_escaped, tx_ctx
 //@   ensures [C18.writes-inside-tx] old(tx_open) == 0 ==> tx_escaped == old(tx_escaped)
 //@   ensures [C06.lookup-then-validate] err == nil ==> validated_n[code] > old(validated_n[code])
 //@   ensures [C01.redeem-needs-live-code] err == nil ==> old(code_exists[sig]) && old(code_active[sig])
 //@   ensures [C01.redeem-invalidates] err == nil ==> !code_active[sig]
 //@   ensures [C01.issued-with-request-id] err == nil ==> (forall s string :: acc_exists[s] && !old(acc_exists[s]) ==> acc_rid[s] == requester.GetID()) && (forall s string :: ref_exists[s] && !old(ref_exists[s]) ==> ref_rid[s] == requester.GetID())
+//@   ensures [C04.never-reactivates-a-used-token] (forall s string :: old(ref_ever[s]) ==> ref_ever[s]) && (forall s string :: old(ref_ever[s]) && !old(ref_exists[s] && ref_active[s]) ==> !(ref_exists[s] && ref_active[s]))
+//@   ensures [C16.never-revives-device-codes] forall d string :: dev_live[d] ==> old(dev_live[d])
+//@   ensures [C01.populate-touches-only-its-grant] requester.GetID() == old(requester.GetID()) && (forall s string :: code_active[s] ==> old(code_active[s]))
+//@   ensures [C01.populate-touches-only-its-grant] forall s string :: acc_exists[s] ==> acc_rid[s] == requester.GetID() || (old(acc_exists[s]) && acc_rid[s] == old(acc_rid[s]))
+//@   ensures [C01.populate-touches-only-its-grant] forall s string :: ref_exists[s] && ref_active[s] ==> ref_rid[s] == requester.GetID() || (old(ref_exists[s]) && old(ref_active[s]) && ref_rid[s] == old(ref_rid[s]))
 //@   assert @call(CreateAccessTokenSession)#1 [C01.invalidate-before-create] !code_active[sig]
 //@   assert @call(CreateRefreshTokenSession)#1 [C01.invalidate-before-create] !code_active[sig]
 //@   ensures [C18.error-means-fault-or-refusal] err != nil ==> ekind(err) == "server_error" || ekind(err) == "invalid_request" || ekind(err) == "error"
@@ -181,8 +192,8 @@ package oauth2
 
 // ---------------------------------------------------------------- C04 / C05 / C18: refresh flow
 
-//@ spec func tables_unchanged() bool = code_active == old(code_active) && acc_exists == old(acc_exists) && ref_exists == old(ref_exists) && ref_active == old(ref_active)
-//@ spec func tables_restored() bool = code_active == snap_code_active && acc_exists == snap_acc_exists && ref_exists == snap_ref_exists && ref_active == snap_ref_active
+//@ spec func tables_unchanged() bool = code_active == old(code_active) && acc_exists == old(acc_exists) && ref_exists == old(ref_exists) && ref_active == old(ref_active) && dev_live == old(dev_live)
+//@ spec func tables_restored() bool = code_active == snap_code_active && acc_exists == snap_acc_exists && ref_exists == snap_ref_exists && ref_active == snap_ref_active && dev_live == snap_dev_live
 
 //@ func (*RefreshTokenGrantHandler).CanHandleTokenEndpointRequest
 //@   pure
@@ -213,6 +224,7 @@ package oauth2
 //@   ensures [C04.reuse-kills-family] err == nil ==> !ref_exists[signature] && (forall s string :: old(acc_exists[s]) && acc_rid[s] == rid ==> !acc_exists[s]) && (forall s string :: ref_exists[s] && ref_rid[s] == rid ==> !ref_active[s])
 //@   ensures [C04.reuse-touches-only-family] (forall s string :: acc_rid[s] != rid ==> acc_exists[s] == old(acc_exists[s])) && (forall s string :: ref_rid[s] != rid && s != signature ==> ref_active[s] == old(ref_active[s]) && ref_exists[s] == old(ref_exists[s]))
 //@   ensures [C04.reuse-issues-nothing] code_active == old(code_active) && (forall s string :: acc_exists[s] ==> old(acc_exists[s])) && (forall s string :: ref_active[s] ==> old(ref_active[s])) && (forall s string :: ref_exists[s] ==> old(ref_exists[s]))
+//@   ensures [C16.never-revives-device-codes] forall d string :: dev_live[d] ==> old(dev_live[d])
 //@   ensures [C18.reuse-fault-refuses] faults != old(faults) ==> err != nil
 //@   ensures [C04.reuse-fails-only-on-fault] err != nil ==> faults != old(faults)
 //@   ensures [C18.reuse-begin-matched-once] txl && tx_begun == old(tx_begun) + 1 ==> (tx_committed == old(tx_committed) + 1 && tx_rollback_calls == old(tx_rollback_calls)) || (tx_committed == old(tx_committed) && tx_rollback_calls == old(tx_rollback_calls) + 1)
@@ -234,6 +246,7 @@ package oauth2
 //@   modifies tx_open, tx_begun, tx_committed, tx_rolledback, tx_commit_calls, tx_rollback_calls, snap_code_active, snap_acc_exists, snap_ref_exists, snap_ref_active, snap_dev_live, dev_live, code_active, acc_exists, ref_exists, ref_active, faults, validated_n, tx_escaped, tx_ctx
 //@   ensures [C18.writes-inside-tx] old(tx_open) == 0 ==> tx_escaped == old(tx_escaped)
 //@   ensures [C06.lookup-then-validate] err == nil ==> validated_n[refresh] > old(validated_n[refresh])
+//@   ensures [C16.never-revives-device-codes] forall d string :: dev_live[d] ==> old(dev_live[d])
 //@   ensures [C04.inactive-is-refused] reuse ==> err != nil
 //@   ensures [C04.reuse-error-class] reuse && canhandle ==> ekind(err) == "invalid_grant" || ekind(err) == "invalid_request" || ekind(err) == "server_error"
 //@   ensures [C04.reuse-invalid-grant-unless-fault] reuse && canhandle && faults == old(faults) ==> ekind(err) == "invalid_grant"
@@ -267,7 +280,7 @@ package oauth2
 //@   let asig = c.AccessTokenStrategy.AccessTokenSignature(ctx, responder.GetAccessToken())
 //@   let rsig = c.RefreshTokenStrategy.RefreshTokenSignature(ctx, unbox(responder.GetExtra("refresh_token"), string))
 //@   requires c != nil && requester != nil && responder != nil && !stored[requester]
-//@   modifies code_active, acc_exists, acc_rid, acc_client, acc_req, ref_exists, ref_active, ref_rid, ref_client, ref_acc, ref_req, stored, faults, tx_open, tx_begun, tx_committed, tx_rolledback, tx_commit_calls, tx_rollback_calls, snap_code_active, snap_acc_exists, snap_ref_exists, snap_ref_active, snap_dev_live, dev_live, tx_escaped, tx_ctx
+//@   modifies code_active, acc_exists, acc_rid, acc_client, acc_req, ref_exists, ref_active, ref_rid, ref_client, ref_acc, ref_req, ref_ever, stored, faults, tx_open, tx_begun, tx_committed, tx_rolledback, tx_commit_calls, tx_rollback_calls, snap_code_active, snap_acc_exists, snap_ref_exists, snap_ref_active, snap_dev_live, dev_live, tx_escaped, tx_ctx
 //@   ensures [C18.writes-inside-tx] old(tx_open) == 0 ==> tx_escaped == old(tx_escaped)
 //@   ensures [C04.rotate-then-create] err == nil ==> acc_exists[asig] && acc_rid[asig] == rid && ref_exists[rsig] && ref_active[rsig] && ref_rid[rsig] == rid && ref_acc[rsig] == asig
 //@   ensures [C04.only-new-pair-live] err == nil ==> (forall s string :: acc_exists[s] && acc_rid[s] == rid ==> s == asig) && (forall s string :: ref_exists[s] && ref_active[s] && ref_rid[s] == rid ==> s == rsig)
@@ -275,6 +288,11 @@ package oauth2
 //@   ensures [C04.other-grants-untouched] err == nil ==> (forall s string :: s != asig && old(acc_rid[s]) != rid ==> acc_exists[s] == old(acc_exists[s]) && acc_rid[s] == old(acc_rid[s])) && (forall s string :: s != rsig && old(ref_rid[s]) != rid ==> ref_exists[s] == old(ref_exists[s]) && ref_active[s] == old(ref_active[s]) && ref_rid[s] == old(ref_rid[s]))
 //@   ensures [C04.other-grants-never-removed] (forall s string :: old(acc_exists[s]) && old(acc_rid[s]) != rid ==> acc_exists[s]) && (forall s string :: old(ref_exists[s]) && old(ref_active[s]) && old(ref_rid[s]) != rid ==> ref_exists[s] && ref_active[s])
 //@   ensures [C04.codes-untouched] code_active == old(code_active)
+//@   ensures [C16.never-revives-device-codes] forall d string :: dev_live[d] ==> old(dev_live[d])
+//@   ensures [C04.populate-touches-only-its-grant] requester.GetID() == rid
+//@   ensures [C04.never-reactivates-a-used-token] (forall s string :: old(ref_ever[s]) ==> ref_ever[s]) && (forall s string :: old(ref_ever[s]) && !old(ref_exists[s] && ref_active[s]) ==> !(ref_exists[s] && ref_active[s]))
+//@   ensures [C04.populate-touches-only-its-grant] forall s string :: acc_exists[s] ==> acc_rid[s] == rid || (old(acc_exists[s]) && acc_rid[s] == old(acc_rid[s]))
+//@   ensures [C04.populate-touches-only-its-grant] forall s string :: ref_exists[s] && ref_active[s] ==> ref_rid[s] == rid || (old(ref_exists[s]) && old(ref_active[s]) && ref_rid[s] == old(ref_rid[s]))
 //@   assert @call(CreateAccessTokenSession)#1 [C04.rotation-precedes-creation] (forall s string :: acc_exists[s] ==> acc_rid[s] != rid) && (forall s string :: ref_exists[s] && ref_rid[s] == rid ==> !ref_active[s])
 //@   ensures [C18.unexpected-error-refuses] faults != old(faults) ==> err != nil
 //@   ensures [C18.error-class] err != nil ==> ekind(err) == "server_error" || ekind(err) == "invalid_request" || ekind(err) == "error"
@@ -425,6 +443,7 @@ package oauth2
 //@   modifies acc_exists, acc_rid, acc_client, acc_req, stored, faults, tx_escaped, ar.GetSession().GetExpiresAt(fosite.AccessToken), ar.GetRequestForm(), mapof(resp.GetParameters()), resp.GetCode(), ar.DidHandleAllResponseTypes()
 //@   ensures [C13.implicit-params] forall k string :: (k in resp.GetParameters()) ==> (old(k in resp.GetParameters()) || k == "access_token" || k == "expires_in" || k == "token_type" || k == "state" || k == "scope")
 //@   ensures [C13.implicit-params] err == nil ==> ("access_token" in resp.GetParameters()) && ("state" in resp.GetParameters())
+//@   ensures [C01.issue-touches-only-its-grant] ar.GetID() == old(ar.GetID()) && (forall s string :: acc_exists[s] ==> acc_rid[s] == ar.GetID() || (old(acc_exists[s]) && acc_rid[s] == old(acc_rid[s])))
 
 //@ func (*AuthorizeImplicitGrantTypeHandler).HandleAuthorizeEndpointRequest
 //@   let inv = tokparams(resp.GetParameters()) ==> (ar.GetDefaultResponseMode() == fosite.ResponseModeFragment && !ar.GetResponseTypes().ExactOne("code"))
@@ -442,6 +461,7 @@ package oauth2
 //@   requires c != nil && ar != nil && resp != nil && ar.GetSession() != nil && ar.GetClient() != nil
 //@   modifies code_exists, code_active, code_rid, code_client, code_req, stored, faults, tx_escaped, ar.GetSession().GetExpiresAt(fosite.AuthorizeCode), ar.GetRequestForm(), mapof(resp.GetParameters()), resp.GetCode(), ar.DidHandleAllResponseTypes()
 //@   ensures [C13.code-params] forall k string :: (k in resp.GetParameters()) ==> (old(k in resp.GetParameters()) || k == "code" || k == "state" || k == "scope")
+//@   ensures [C01.issue-touches-only-the-new-code] ar.GetID() == old(ar.GetID()) && (forall s string :: old(code_exists[s]) ==> code_exists[s] && code_active[s] == old(code_active[s]) && code_rid[s] == old(code_rid[s])) && (forall s string :: code_exists[s] && !old(code_exists[s]) ==> code_rid[s] == ar.GetID())
 //@   assert @call(CreateAuthorizeCodeSession)#1 [C02.stored-code-keeps-redirect-uri] len(c.Config.GetSanitationWhiteList(ctx)) == 0 ==> formget($arg3.GetRequestForm(), "redirect_uri") == old(formget(ar.GetRequestForm(), "redirect_uri"))
 
 //@ func (*AuthorizeExplicitGrantHandler).HandleAuthorizeEndpointRequest
@@ -493,3 +513,52 @@ package oauth2
 //@   ensures [C20.password-never-kept-in-the-request] err == nil ==> !("password" in request.GetRequestForm())
 //@   ensures [C07.password-grant-expiry] err == nil ==> 2 * (request.GetSession().GetExpiresAt(fosite.AccessToken) - ($now + life)) <= 1000000000 && 2 * ((old($now) + life) - request.GetSession().GetExpiresAt(fosite.AccessToken)) <= 1000000000
 //@   invariant loop#1 [C12.password-grant-scope-confined] $i <= len(request.GetRequestedScopes()) && (forall j int :: 0 <= j && j < $i ==> call(c.Config.GetScopeStrategy(ctx), request.GetClient().GetScopes(), request.GetRequestedScopes()[j]))
+
+// ---------------------------------------------------------------- history lemmas (ghost drivers in verif_history.go)
+// dead(sig): the code is used and no live token of its grant exists. A fault-free replay of a used code establishes it
+// (C01.replay-revokes-access / -refresh on HandleTokenEndpointRequest); the driver proves that NO sequence of token-endpoint
+// operations, however long, brings a token of that grant back to life: that is the "from that moment" of C01.
+//@ spec func dead(sig string) bool = code_exists[sig] && !code_active[sig] && (forall s string :: acc_exists[s] ==> acc_rid[s] != code_rid[sig]) && (forall s string :: ref_exists[s] && ref_rid[s] == code_rid[sig] ==> !ref_active[s])
+// request ids identify one authorization (UUIDs): no other code carries the dead grant's request id
+//@ spec func rid_unique(sig string) bool = (forall s string :: code_exists[s] && s != sig ==> code_rid[s] != code_rid[sig]) && (forall d string :: dev_live[d] ==> dev_rid[d] != code_rid[sig])
+//@ interface verifEnv.Request
+//@   ensures result != nil && !stored[result] && !shared[result] && !shared[result.GetSession()] && result.GetClient() != nil && result.GetSession() != nil
+//@   ensures forall s string :: code_exists[s] ==> result.GetID() != code_rid[s]
+//@   ensures result.GetID() != grant_id(recv)
+//@ interface verifEnv.AuthorizeRequest
+//@   ensures result != nil && result.GetClient() != nil && result.GetSession() != nil
+//@   ensures (forall s string :: code_exists[s] ==> result.GetID() != code_rid[s]) && result.GetID() != grant_id(recv)
+//@ interface verifEnv.AuthorizeResponse
+//@   ensures result != nil
+//@ interface verifEnv.More
+//@ interface verifEnv.Kind
+//@ interface verifEnv.Token
+//@ interface verifEnv.TokenType
+//@ interface verifEnv.Signature
+//@ interface verifEnv.Response
+//@   ensures result != nil
+//@ interface verifEnv.Client
+//@   ensures result != nil
+// deadrid(rid): no live token of the grant with request id rid exists, every authorization code of that grant is used and no
+// live device code belongs to it. Reuse of
+// a rotated refresh token (C04.reuse-kills-family) and revocation (C08.revokes-family) establish it; the driver proves it stable.
+//@ spec func deadrid(rid string) bool = (forall s string :: acc_exists[s] ==> acc_rid[s] != rid) && (forall s string :: ref_exists[s] && ref_rid[s] == rid ==> !ref_active[s]) && (forall s string :: code_exists[s] && code_rid[s] == rid ==> !code_active[s]) && (forall d string :: dev_live[d] ==> dev_rid[d] != rid)
+// the environment observes one grant (grant_id) and, request ids being unique, never hands out a NEW request carrying that id
+//@ spec func grant_id(e any) string
+//@ interface verifEnv.Grant
+//@   pure
+//@   ensures result == grant_id(recv)
+//@ func verifHistoryTokenEndpoint
+//@   let rid0 = grant_id(env)
+//@   requires env != nil && code != nil && refresh != nil && revoke != nil && intro != nil && store != nil && implicit != nil
+//@   modifies everything
+//@   invariant loop#1 [C01.dead-grant-stays-dead] old(dead(sig0) && rid_unique(sig0)) ==> dead(sig0) && rid_unique(sig0)
+//@   invariant loop#1 [C01.used-code-stays-used] old(code_exists[sig0] && !code_active[sig0]) ==> code_exists[sig0] && !code_active[sig0]
+//@   invariant loop#1 [C04.dead-family-stays-dead] old(deadrid(rid0)) ==> deadrid(rid0)
+//@   invariant loop#1 [C08.revoked-grant-stays-revoked] old(deadrid(rid0)) ==> deadrid(rid0)
+//@   invariant loop#1 [C04.used-refresh-token-stays-used] old(ref_ever[sig0] && !(ref_exists[sig0] && ref_active[sig0])) ==> ref_ever[sig0] && !(ref_exists[sig0] && ref_active[sig0])
+//@   invariant loop#1 [C16.used-device-code-stays-used] old(dev_ever[sig0] && !dev_live[sig0]) ==> dev_ever[sig0] && !dev_live[sig0]
+//@   ensures [C01.dead-grant-stays-dead] old(dead(sig0) && rid_unique(sig0)) ==> dead(sig0)
+//@   ensures [C01.used-code-stays-used] old(code_exists[sig0] && !code_active[sig0]) ==> code_exists[sig0] && !code_active[sig0]
+//@   ensures [C04.dead-family-stays-dead] old(deadrid(rid0)) ==> deadrid(rid0)
+//@   ensures [C08.revoked-grant-stays-revoked] old(deadrid(rid0)) ==> deadrid(rid0)
